@@ -342,7 +342,13 @@ func (sc *c08Scenario) Check(res *simrt.Result) []Violation {
 			vs = append(vs, Violation{Clause: "lost", Fingerprint: sc.Kind, Detail: fmt.Sprintf("values %v offered but not returned by any removal although the structure was drained; history: %s", lost, histString(h))})
 		}
 		if len(vs) == 0 {
-			r := porcupine.CheckOperationsTimeout(c08Model(isStack), pops, 20*time.Second)
+			// the search is exponential in the number of overlapping calls: wide histories get a short
+			// budget (Unknown = inconclusive, never reported); the direct checks above always run
+			budget := 10 * time.Second
+			if len(pops) > 24 {
+				budget = 300 * time.Millisecond
+			}
+			r := porcupine.CheckOperationsTimeout(c08Model(isStack), pops, budget)
 			switch r {
 			case porcupine.Illegal:
 				vs = append(vs, Violation{Clause: "not-linearizable", Fingerprint: sc.Kind, Detail: "porcupine: no sequential order explains the history: " + histString(h)})
